@@ -32,14 +32,20 @@ type tuple struct {
 	Headers   map[string]string `json:"headers,omitempty"`
 	Init      map[string]any    `json:"init,omitempty"`
 	Method    string            `json:"method,omitempty"`
+	// multi-valued headers: name exactly as spelled in Options.Headers (any case) -> values in order
+	HeaderValues map[string][]string `json:"header_values,omitempty"`
 }
 
 func (t *tuple) options(u *upstream) client.Options {
 	o := client.Options{}
-	if len(t.Headers) > 0 {
+	if len(t.Headers) > 0 || len(t.HeaderValues) > 0 {
 		o.Headers = http.Header{}
 		for k, v := range t.Headers {
 			o.Headers.Set(k, v)
+		}
+		for k, vs := range t.HeaderValues {
+			// the map key is used as spelled: the client hashes and sends what it was given
+			o.Headers[k] = append([]string(nil), vs...)
 		}
 	}
 	if t.Transport == "sse" {
@@ -62,6 +68,12 @@ func (t *tuple) expectHeaders() string {
 	h := http.Header{}
 	for k, v := range t.Headers {
 		h.Set(k, v)
+	}
+	for k, vs := range t.HeaderValues {
+		// what an HTTP server sees: canonical name, every value, in order
+		for _, v := range vs {
+			h.Add(k, v)
+		}
 	}
 	return canonHeaders(h)
 }
@@ -121,7 +133,7 @@ type subscriber struct {
 	leaves          bool   // its own context carries a deadline that ends during the run (it leaves without cancel())
 	leavePhase      string // phase label of that departure
 	faulted         bool   // the server dropped / silenced the connection carrying it
-	sendFailed      int  // manual mode: the upstream could not send because the subscription's connection was gone
+	sendFailed      int    // manual mode: the upstream could not send because the subscription's connection was gone
 	hookHits        int
 }
 
